@@ -600,7 +600,9 @@ func TestC08_SidetreeClient(t *testing.T) {
 		steps = append(steps, lifecycleStep{typ: "create", req: captured[0], doc: doc, updateC: upd.Commitment(alg), recovC: rec.Commitment(alg), origin: origin})
 		var reqVal map[string]interface{}
 		_ = json.Unmarshal(captured[0], &reqVal)
-		did := "did:sidetree:" + refHash(reqVal["suffixData"], p.MultihashAlgorithms[0])
+		// the DID the caller holds may carry further namespace segments in front of the suffix
+		didNS := rapid.SampledFrom([]string{"did:sidetree", "did:sidetree", "did:sidetree:test", "did:ion:a:b"}).Draw(t, "didNamespace")
+		did := didNS + ":" + refHash(reqVal["suffixData"], p.MultihashAlgorithms[0])
 
 		cur := deepCopyValue(doc).(map[string]interface{})
 		updAlg, recAlg := alg, alg
@@ -725,7 +727,7 @@ func TestC08_SidetreeClient(t *testing.T) {
 			t.Fatalf("C08 DeactivateDID refused valid input: %v", err)
 		}
 		steps = append(steps, lifecycleStep{typ: "deactivate", req: captured[n0], doc: map[string]interface{}{}})
-		verifyLifecycle(t, p, "did:sidetree", steps)
+		verifyLifecycle(t, p, didNS, steps)
 		kinds := ""
 		for _, s := range steps {
 			kinds += s.typ[:1]
